@@ -3,7 +3,9 @@
 //! Input line (fields separated by '|'):
 //!   `D <fmt> <ch> <depth> | <sin args> | <cos args> | op , op , ...`
 //!   `V <fmt> <ch> <depth> <ratio bits> | <source samples, frame after frame> | <sin args> | <cos args> | op , ...`
-//! fmt: 0 f64, 1 f32, 2 i16; ch: 1 (bare sample as frame) or 2 ([S; 2]).
+//! fmt: 0 f64, 1 f32, 2 i16; 10.. = 10 + code of the fourteen sample formats
+//! (i8 i16 I24 i32 I48 i64 u8 u16 U24 u32 U48 u64 f32 f64); ch: 1 (bare sample as frame) or 2 ([S; 2]).
+//! Integer samples travel as their (inner) value.
 //! ops D: `push s0 [s1]`, `interp <x bits>`, `reset`;  ops V: `next`, `ratio <bits>`.
 //! Floats travel as IEEE bit patterns (decimal), NaN canonicalised; i16 as integers.
 //! Output: `<sin values>;<cos values>;<7 | 8 code>;` then one observation per op:
@@ -14,6 +16,7 @@ use dasp_frame::Frame;
 use dasp_interpolate::sinc::Sinc;
 use dasp_interpolate::Interpolator;
 use dasp_ring_buffer as ring_buffer;
+use dasp_sample::types::{I24, I48, U24, U48};
 use dasp_sample::Duplex;
 use dasp_signal::interpolate::Converter;
 use dasp_signal::Signal;
@@ -76,22 +79,38 @@ impl Cod for [f32; 2] {
         self.iter().map(|x| f32_bits(*x)).collect()
     }
 }
-impl Cod for i16 {
-    fn dec(v: &[i128]) -> Self {
-        v[0] as i16
-    }
-    fn enc(&self) -> Vec<i128> {
-        vec![*self as i128]
-    }
+macro_rules! cod_int {
+    ($T:ty, $dec:expr, $enc:expr) => {
+        impl Cod for $T {
+            fn dec(v: &[i128]) -> Self {
+                ($dec)(v[0])
+            }
+            fn enc(&self) -> Vec<i128> {
+                vec![($enc)(*self)]
+            }
+        }
+        impl Cod for [$T; 2] {
+            fn dec(v: &[i128]) -> Self {
+                [($dec)(v[0]), ($dec)(v[1])]
+            }
+            fn enc(&self) -> Vec<i128> {
+                self.iter().map(|x| ($enc)(*x)).collect()
+            }
+        }
+    };
 }
-impl Cod for [i16; 2] {
-    fn dec(v: &[i128]) -> Self {
-        [v[0] as i16, v[1] as i16]
-    }
-    fn enc(&self) -> Vec<i128> {
-        self.iter().map(|x| *x as i128).collect()
-    }
-}
+cod_int!(i8, |z: i128| z as i8, |x: i8| x as i128);
+cod_int!(i16, |z: i128| z as i16, |x: i16| x as i128);
+cod_int!(i32, |z: i128| z as i32, |x: i32| x as i128);
+cod_int!(i64, |z: i128| z as i64, |x: i64| x as i128);
+cod_int!(u8, |z: i128| z as u8, |x: u8| x as i128);
+cod_int!(u16, |z: i128| z as u16, |x: u16| x as i128);
+cod_int!(u32, |z: i128| z as u32, |x: u32| x as i128);
+cod_int!(u64, |z: i128| z as u64, |x: u64| x as i128);
+cod_int!(I24, |z: i128| I24::new_unchecked(z as i32), |x: I24| x.inner() as i128);
+cod_int!(U24, |z: i128| U24::new_unchecked(z as i32), |x: U24| x.inner() as i128);
+cod_int!(I48, |z: i128| I48::new_unchecked(z as i64), |x: I48| x.inner() as i128);
+cod_int!(U48, |z: i128| U48::new_unchecked(z as i64), |x: U48| x.inner() as i128);
 
 fn jn(v: &[i128]) -> String {
     v.iter().map(|x| x.to_string()).collect::<Vec<_>>().join(" ")
@@ -214,28 +233,42 @@ fn main() {
         let cos_v: Vec<i128> = nums(parts[cos_i]).iter().map(|b| f64_bits(f64::from_bits(*b as u64).cos())).collect();
         let ops = parse_ops(parts[ops_i]);
         let mut out = vec![jn(&sin_v), jn(&cos_v)];
-        if kind == "D" {
-            match (fmt, ch) {
-                (0, 1) => run_direct::<f64>(depth, &ops, &mut out),
-                (0, 2) => run_direct::<[f64; 2]>(depth, &ops, &mut out),
-                (1, 1) => run_direct::<f32>(depth, &ops, &mut out),
-                (1, 2) => run_direct::<[f32; 2]>(depth, &ops, &mut out),
-                (2, 1) => run_direct::<i16>(depth, &ops, &mut out),
-                (2, 2) => run_direct::<[i16; 2]>(depth, &ops, &mut out),
-                _ => panic!("unsupported format"),
-            }
-        } else {
-            let ratio = f64::from_bits(head[4].parse::<u64>().unwrap());
-            let source = nums(parts[1]);
-            match (fmt, ch) {
-                (0, 1) => run_conv::<f64>(depth, ratio, &source, ch, &ops, &mut out),
-                (0, 2) => run_conv::<[f64; 2]>(depth, ratio, &source, ch, &ops, &mut out),
-                (1, 1) => run_conv::<f32>(depth, ratio, &source, ch, &ops, &mut out),
-                (1, 2) => run_conv::<[f32; 2]>(depth, ratio, &source, ch, &ops, &mut out),
-                (2, 1) => run_conv::<i16>(depth, ratio, &source, ch, &ops, &mut out),
-                (2, 2) => run_conv::<[i16; 2]>(depth, ratio, &source, ch, &ops, &mut out),
-                _ => panic!("unsupported format"),
-            }
+        macro_rules! go {
+            ($F1:ty, $F2:ty) => {
+                if kind == "D" {
+                    if ch == 1 {
+                        run_direct::<$F1>(depth, &ops, &mut out)
+                    } else {
+                        run_direct::<$F2>(depth, &ops, &mut out)
+                    }
+                } else {
+                    let ratio = f64::from_bits(head[4].parse::<u64>().unwrap());
+                    let source = nums(parts[1]);
+                    if ch == 1 {
+                        run_conv::<$F1>(depth, ratio, &source, ch, &ops, &mut out)
+                    } else {
+                        run_conv::<$F2>(depth, ratio, &source, ch, &ops, &mut out)
+                    }
+                }
+            };
+        }
+        assert!(ch == 1 || ch == 2, "unsupported channel count");
+        match fmt {
+            0 | 23 => go!(f64, [f64; 2]),
+            1 | 22 => go!(f32, [f32; 2]),
+            2 | 11 => go!(i16, [i16; 2]),
+            10 => go!(i8, [i8; 2]),
+            12 => go!(I24, [I24; 2]),
+            13 => go!(i32, [i32; 2]),
+            14 => go!(I48, [I48; 2]),
+            15 => go!(i64, [i64; 2]),
+            16 => go!(u8, [u8; 2]),
+            17 => go!(u16, [u16; 2]),
+            18 => go!(U24, [U24; 2]),
+            19 => go!(u32, [u32; 2]),
+            20 => go!(U48, [U48; 2]),
+            21 => go!(u64, [u64; 2]),
+            _ => panic!("unsupported format"),
         }
         out.join(";")
     });
